@@ -570,20 +570,27 @@ def main(argv):
     stream_names = [s for s, _ in cases]
     raw_cases = [c for _, c in cases]
     t1 = time.time()
-    minputs = [prop.model_input(c) for c in raw_cases]
-    model_obs = run_model(exe, minputs) if exe else [['driver-error', 'no model']] * len(raw_cases)
-    t2 = time.time()
-    # cases on which the Model itself gives up (fuel / size guard: [-3]) are not compared, so they are not run either
-    # (an expansion that explodes costs the implementation a time-out per case); they are counted in the evidence
     if getattr(prop, 'SKIP_WHEN_MODEL_GIVES_UP', False):
+        # Model first: cases on which the Model itself gives up (fuel / size guard: [-3]) are not compared, so they are not run
+        # either (an expansion that explodes costs the implementation a time-out per case); they are counted in the evidence
+        minputs = [prop.model_input(c) for c in raw_cases]
+        model_obs = run_model(exe, minputs) if exe else [['driver-error', 'no model']] * len(raw_cases)
+        t2 = time.time()
         run_idx = [i for i, mo in enumerate(model_obs) if not (isinstance(mo, list) and mo[:1] == [-3])]
+        ran = run_impl_cases(modname, [raw_cases[i] for i in run_idx])
+        impl_obs = [['not-run', 'model gave up']] * len(raw_cases)
+        for i, o in zip(run_idx, ran):
+            impl_obs[i] = o
+        t3 = time.time()
+        impl_s, model_s = t3 - t2, t2 - t1
     else:
-        run_idx = list(range(len(raw_cases)))
-    ran = run_impl_cases(modname, [raw_cases[i] for i in run_idx])
-    impl_obs = [['not-run', 'model gave up']] * len(raw_cases)
-    for i, o in zip(run_idx, ran):
-        impl_obs[i] = o
-    t3 = time.time()
+        # implementation first (some properties feed the Model with what the implementation's own expander recorded)
+        impl_obs = run_impl_cases(modname, raw_cases)
+        t2 = time.time()
+        minputs = [prop.model_input(c) for c in raw_cases]
+        model_obs = run_model(exe, minputs) if exe else [['driver-error', 'no model']] * len(raw_cases)
+        t3 = time.time()
+        impl_s, model_s = t2 - t1, t3 - t2
 
     stats = {}
     distinct = set()
@@ -660,6 +667,16 @@ def main(argv):
         if not vm['ok']:
             broken.append('extraction cross-check (vm_compute vs OCaml driver) failed: %s' % json.dumps(vm)[:300])
 
+    # 7b. independent re-check of the compiled closure (thorough tier): coqchk -o, axioms it reports
+    chk = None
+    if args.tier == 'thorough' and proof['ok'] and not args.no_coq:
+        rc_c, out_c = sh(['coqchk', '-silent', '-o'] + QFLAGS + ['Verif.' + pid], 1500, cwd=COQ)
+        m_ax = re.search(r'\* Axioms:(.*?)\n\s*\n\* Constants', out_c, re.S)
+        axioms = ' '.join(m_ax.group(1).split()) if m_ax else 'unparsed'
+        chk = dict(ok=(rc_c == 0), axioms=axioms)
+        if rc_c != 0:
+            broken.append('coqchk rejects the compiled closure of Properties/%s.vo: %s' % (pid, out_c[-400:]))
+
     # 8. report
     rc = 0
     replay_paths = []
@@ -722,7 +739,8 @@ def main(argv):
             pins_changed=changed_pins,
             boost=boost,
             extraction_crosscheck=vm,
-            impl_s=round(t3 - t2, 1), model_s=round(t2 - t1, 1),
+            coqchk=chk,
+            impl_s=round(impl_s, 1), model_s=round(model_s, 1),
         ),
         assumptions=list(getattr(prop, 'ASSUMPTIONS', [])),
         wall_s=round(time.time() - t0, 1),
